@@ -32,6 +32,8 @@ enum Ty {
     I16,
     I32,
     I64,
+    /// the widest type the reader's bound admits: fields of up to 128 bits
+    U128,
 }
 
 impl Ty {
@@ -41,6 +43,7 @@ impl Ty {
             Ty::U16 | Ty::I16 => 16,
             Ty::U32 | Ty::I32 => 32,
             Ty::U64 | Ty::I64 => 64,
+            Ty::U128 => 128,
         }
     }
 }
@@ -150,6 +153,10 @@ fn tables() -> Vec<VTable> {
     add("syn-leaf", vec![Entry::End(7)]);
     add("syn-3", vec![Entry::Fork(1, 2), Entry::End(10), Entry::Fork(3, 4), Entry::End(11), Entry::End(12)]);
     add("syn-dangling", vec![Entry::Fork(1, 9), Entry::End(1)]);
+    // tables whose links form a directed acyclic graph with shared entries (what read_vlc documents as
+    // valid): codes may be as long as the table has entries, less one
+    add("syn-dag-chain", vec![Entry::Fork(1, 1), Entry::Fork(2, 2), Entry::Fork(3, 3), Entry::Fork(4, 4), Entry::Fork(5, 5), Entry::Fork(6, 6), Entry::End(60)]);
+    add("syn-dag-ladder", vec![Entry::Fork(1, 2), Entry::Fork(3, 2), Entry::Fork(3, 4), Entry::Fork(5, 4), Entry::Fork(5, 6), Entry::End(50), Entry::Fork(7, 5), Entry::End(51)]);
     v
 }
 
@@ -196,12 +203,16 @@ struct Lock {
     counts: Vec<(&'static str, &'static str)>,
     phases: [u64; 8],
     straddle: u64,
+    /// reads and peeks of 65..128 bits into a 128-bit destination
+    wide: u64,
     sc: Vec<(usize, &'static str)>,
 }
 
 #[derive(Debug, PartialEq, Clone)]
 enum Val {
     U(u64),
+    /// a 128-bit value as (high, low) halves
+    W(u64, u64),
     Unit,
     Sc(Option<u32>),
     Leaf(u32),
@@ -248,6 +259,14 @@ impl Lock {
         if n > ty.width() {
             return MRes::Internal;
         }
+        if ty == Ty::U128 {
+            let d = self.data.borrow();
+            let (nh, nl) = (n.saturating_sub(64), n.min(64));
+            return match (bits_at(&d, self.p, nh), bits_at(&d, self.p + nh as usize, nl)) {
+                (Some(h), Some(l)) => MRes::Ok(Val::W(h, l)),
+                _ => MRes::Eof,
+            };
+        }
         if n == 0 {
             return MRes::Ok(Val::U(0));
         }
@@ -282,20 +301,24 @@ impl Lock {
         macro_rules! fixed {
             ($ty:expr, $n:expr, $signed:expr, $consume:expr, $call:ident) => {{
                 let exp = self.model_fixed($ty, $n, $signed);
-                let got: Result<u64, Error> = match $ty {
-                    Ty::U8 => rd.$call::<u8>($n).map(|v| v as u64),
-                    Ty::U16 => rd.$call::<u16>($n).map(|v| v as u64),
-                    Ty::U32 => rd.$call::<u32>($n).map(|v| v as u64),
-                    Ty::U64 => rd.$call::<u64>($n),
-                    Ty::I16 => rd.$call::<i16>($n).map(|v| v as u16 as u64),
-                    Ty::I32 => rd.$call::<i32>($n).map(|v| v as u32 as u64),
-                    Ty::I64 => rd.$call::<i64>($n).map(|v| v as u64),
+                let got: Result<Val, Error> = match $ty {
+                    Ty::U8 => rd.$call::<u8>($n).map(|v| Val::U(v as u64)),
+                    Ty::U16 => rd.$call::<u16>($n).map(|v| Val::U(v as u64)),
+                    Ty::U32 => rd.$call::<u32>($n).map(|v| Val::U(v as u64)),
+                    Ty::U64 => rd.$call::<u64>($n).map(Val::U),
+                    Ty::I16 => rd.$call::<i16>($n).map(|v| Val::U(v as u16 as u64)),
+                    Ty::I32 => rd.$call::<i32>($n).map(|v| Val::U(v as u32 as u64)),
+                    Ty::I64 => rd.$call::<i64>($n).map(|v| Val::U(v as u64)),
+                    Ty::U128 => rd.$call::<u128>($n).map(|v| Val::W((v >> 64) as u64, v as u64)),
                 };
+                if $ty == Ty::U128 && $n > 64 && $n <= 128 {
+                    self.wide += 1;
+                }
                 let left = self.data.borrow().len() * 8 - self.p;
                 if ($n as usize) > left && $n <= $ty.width() {
                     self.straddle += 1;
                 }
-                self.judge(op, exp, got.map(Val::U), if $consume { $n as usize } else { 0 })
+                self.judge(op, exp, got, if $consume { $n as usize } else { 0 })
             }};
         }
         let r = match op {
@@ -356,6 +379,9 @@ impl Lock {
                 }
                 let got = rd.read_vlc(&tab.real[..]).map(Val::Leaf);
                 let failed = got.is_err();
+                if !failed && tab.name.starts_with("syn-dag") {
+                    self.counts.push(("vlc_table", if tab.name == "syn-dag-chain" { "syn-dag-chain" } else { "syn-dag-ladder" }));
+                }
                 let r = self.judge(op, exp, got, used);
                 if failed {
                     // position after a failed read_vlc is documented as undefined
@@ -515,7 +541,7 @@ impl Lock {
 fn run_history(src: &[u8], chunk: usize, phase: u32, ops: &[Op], tabs: &[VTable]) -> (Lock, Option<crate::util::Panic>) {
     let data = Rc::new(RefCell::new(src.to_vec()));
     let delivered = Rc::new(RefCell::new(0usize));
-    let mut lock = Lock { data: data.clone(), delivered: delivered.clone(), p: 0, mismatch: None, consumed_ok: false, counts: vec![], phases: [0; 8], straddle: 0, sc: vec![] };
+    let mut lock = Lock { data: data.clone(), delivered: delivered.clone(), p: 0, mismatch: None, consumed_ok: false, counts: vec![], phases: [0; 8], straddle: 0, wide: 0, sc: vec![] };
     let r = catch(|| {
         let mut rd = H263Reader::from_source(Src { data, delivered, chunk, calls: 0 });
         if phase > 0 {
@@ -618,13 +644,14 @@ fn pattern_sources() -> Vec<Vec<u8>> {
 }
 
 fn random_op(rng: &mut Rng, depth: usize, ntab: usize, top: bool) -> Op {
-    let ty_u = [Ty::U8, Ty::U16, Ty::U32, Ty::U64];
+    let ty_u = [Ty::U8, Ty::U16, Ty::U32, Ty::U64, Ty::U128];
     let ty_s = [Ty::I16, Ty::I32, Ty::I64, Ty::U8, Ty::U16, Ty::U32];
     let width = |rng: &mut Rng, ty: Ty| -> u32 {
         match rng.below(10) {
             0 => ty.width() + 1 + rng.below(3) as u32,
             1 => ty.width(),
             2 => 0,
+            3 if ty == Ty::U128 => 65 + rng.below(64) as u32,
             _ => rng.below(ty.width().min(33) as u64 + 1) as u32,
         }
     };
@@ -764,6 +791,7 @@ fn absorb(rep: &mut Report, lock: &Lock, pan: Option<crate::util::Panic>, src: &
         }
     }
     rep.add("reads_straddling_end", lock.straddle);
+    rep.add("reads_of_65_to_128_bits", lock.wide);
     for (ph, k) in &lock.sc {
         rep.count(&format!("startcode:phase{}:{}", ph, k));
     }
@@ -781,7 +809,7 @@ pub fn run(ctx: &Ctx) -> (Report, String) {
     if ctx.is_main() {
         let m = ctx.scale_pct;
         rep.require("operations_compared", if thorough { 300_000_000 } else { 15_000_000 } * m / 100);
-        for k in ["op:read:ok", "op:read:eof", "op:read:width-error", "op:read_signed:ok", "op:peek:ok", "op:skip:eof", "op:read_umv:ok", "op:read_umv:err", "op:read_vlc:ok", "op:read_vlc:eof", "op:transaction:err", "op:transaction_union:none", "op:lookahead:ok", "op:commit:ok", "op:grow:ok", "op:start_code:found", "op:start_code:none", "op:start_code:eof", "op:start_code_in_error:found", "reads_straddling_end", "histories_over_an_interrupting_source", "long_histories", "phase0", "phase1", "phase2", "phase3", "phase4", "phase5", "phase6", "phase7"] {
+        for k in ["op:read:ok", "op:read:eof", "op:read:width-error", "op:read_signed:ok", "op:peek:ok", "op:skip:eof", "op:read_umv:ok", "op:read_umv:err", "op:read_vlc:ok", "op:read_vlc:eof", "op:transaction:err", "op:transaction_union:none", "op:lookahead:ok", "op:commit:ok", "op:grow:ok", "op:start_code:found", "op:start_code:none", "op:start_code:eof", "op:start_code_in_error:found", "reads_straddling_end", "reads_of_65_to_128_bits", "op:vlc_table:syn-dag-chain", "op:vlc_table:syn-dag-ladder", "histories_over_an_interrupting_source", "long_histories", "phase0", "phase1", "phase2", "phase3", "phase4", "phase5", "phase6", "phase7"] {
             rep.require(k, 100);
         }
     }
